@@ -130,6 +130,16 @@ impl Space for Compiled {
         for st in [diff(None, None, None, None), diff(Some(Unit::Year), Some(Unit::Hour), Some(temporal_rs::options::RoundingMode::HalfEven), Some(2)), diff(Some(Unit::Hour), None, None, None), diff(Some(Unit::Second), Some(Unit::Hour), None, None)] {
             pair!(out, n, "ZonedDateTime::until", attrs, z.until(&z2, st), z.until_with_provider(&z2, st, &p));
             pair!(out, n, "ZonedDateTime::since", attrs, z.since(&z2, st), z.since_with_provider(&z2, st, &p));
+            // ... and on equal operands (the options are validated all the same: the last settings are invalid)
+            let same = z.clone();
+            pair!(out, n, "ZonedDateTime::until(equal operands)", attrs, z.until(&same, st), z.until_with_provider(&same, st, &p));
+            pair!(out, n, "ZonedDateTime::since(equal operands)", attrs, z.since(&same, st), z.since_with_provider(&same, st, &p));
+        }
+        for st in [diff(Some(Unit::Hour), Some(Unit::Hour), None, Some(7)), diff(None, Some(Unit::Minute), None, Some(60)), diff(Some(Unit::Minute), Some(Unit::Day), None, None)] {
+            let same = z.clone();
+            pair!(out, n, "ZonedDateTime::until(equal operands)", attrs, z.until(&same, st), z.until_with_provider(&same, st, &p));
+            pair!(out, n, "ZonedDateTime::since(equal operands)", attrs, z.since(&same, st), z.since_with_provider(&same, st, &p));
+            pair!(out, n, "ZonedDateTime::until", attrs, z.until(&z2, st), z.until_with_provider(&z2, st, &p));
         }
         for (doff, dtz, dcal) in [(DisplayOffset::Auto, DisplayTimeZone::Auto, DisplayCalendar::Auto), (DisplayOffset::Never, DisplayTimeZone::Critical, DisplayCalendar::Always), (DisplayOffset::Auto, DisplayTimeZone::Never, DisplayCalendar::Critical)] {
             for prec in [Precision::Auto, Precision::Digit(3), Precision::Digit(0)] {
